@@ -147,6 +147,14 @@ fn gen_case(rng: &mut Rng) -> Case {
             lines.push("end".to_string());
         }
     }
+    if rng.chance(1, 40) {
+        // more output than a pipe buffer holds, and a script of a few hundred lines
+        let long = "0123456789".repeat(40);
+        let at = rng.usize(lines.len() + 1);
+        for k in 0..200 + rng.usize(100) {
+            lines.insert(at, format!("echo {} {}", k, long));
+        }
+    }
     let fault = if matches!(form, Form::File | Form::LintShort | Form::LintLong | Form::FileWithExtraArg) && rng.chance(1, 8) {
         Some(match rng.below(3) {
             0 => FileFault::Missing,
